@@ -759,7 +759,7 @@ func main() {
 	runner.Main(&runner.Harness{
 		ID:    "C15",
 		Level: "model_checking",
-		Rule: fmt.Sprintf("building blocks extracted from the repository's adaptation test vectors (%d matcher-set fragments, %d handler fragments, each with the JSON stated for it); configurations composed exhaustively: every set x every handler, every set under 'not', every handler inside tee and inside subroute (guarded and unguarded), ordered pairs of named sets (OR in one route, reuse in another, a route without matchers), ordered pairs of handlers, matching_timeout, two servers with several listen addresses, global-option and listener-wrapper forms, and every fragment with the option lines of one of its blocks reordered (every ordered pair of options moved to the front, the reversal; ordered triples in thorough; JSON compared up to the order of list elements; an order the parser rejects is not judged); each printed as Caddyfile and as expected JSON and pushed through the real adapter; states = distinct composed configurations", len(sets), len(handlers)),
+		Rule:  fmt.Sprintf("building blocks extracted from the repository's adaptation test vectors (%d matcher-set fragments, %d handler fragments, each with the JSON stated for it); configurations composed exhaustively: every set x every handler, every set under 'not', every handler inside tee and inside subroute (guarded and unguarded), ordered pairs of named sets (OR in one route, reuse in another, a route without matchers), ordered pairs of handlers, matching_timeout, two servers with several listen addresses, global-option and listener-wrapper forms, and every fragment with the option lines of one of its blocks reordered (every ordered pair of options moved to the front, the reversal; ordered triples in thorough; JSON compared up to the order of list elements; an order the parser rejects is not judged); each printed as Caddyfile and as expected JSON and pushed through the real adapter; states = distinct composed configurations", len(sets), len(handlers)),
 		Assumptions: []string{
 			"the JSON the maintainers' test vectors state for a fragment is the specification of that fragment; composition (routes, named sets, nesting, servers, wrapper form) is specified by the harness's own printers",
 			"determinism is judged on 6 adaptations of each configuration (map iteration order is not controlled)",
